@@ -328,6 +328,11 @@ func CompliesGetter(m *types.Func) bool {
 // CompliesStringer checks if the given type is a Stringer compliant type,
 // which has a method "String()" that takes no arguments and returns a string.
 func CompliesStringer(src types.Type) bool {
+	// A pointer to an interface has no methods, whatever the interface declares.
+	if ptr, ok := src.(*types.Pointer); ok && types.IsInterface(ptr.Elem()) {
+		return false
+	}
+
 	named, ok := DerefPtr(src).(*types.Named)
 	if !ok {
 		return false
